@@ -1590,7 +1590,9 @@ class ImageProperty(Property):
     checks = ()
     # (a section in both the allocatable and the noload list gives two groups one set of symbols: nothing the layout
     #  clauses say is well defined there; the defaults side of that feature is C08's)
-    boost_exclude = ("alloc_holds_noload_names",)
+    #  a user assignment spelled like a generated symbol replaces its value in the image: "the value of boot_ROM_END" is
+    #  then the user's (the hypothesis `assignCount <= 1` of the whole-script theorems fails); that feature is C17's)
+    boost_exclude = ("alloc_holds_noload_names", "assignment_named_like_generated")
 
     def base_profile(self, r, **kw):
         # (partial-mode cases are compared at text level only; two-step links are C11's)
@@ -1663,7 +1665,7 @@ class C03(ImageProperty):
             "parts, single-segment mode; a third of the cases is linked with GNU ld; non-trivial: two emitted segments with two different address kinds")
 
     def profile(self, r):
-        return self.base_profile(r, p_addr=0.75, p_classes=0.5, p_align=0.6, p_segment_override=0.3)
+        return self.base_profile(r, p_addr=0.75, p_classes=0.5, p_align=0.6, p_segment_override=0.3, p_nonpow2=0.2)
 
     def nontrivial(self, c):
         kinds = set()
@@ -1718,7 +1720,7 @@ class C04(ImageProperty):
             "non-trivial: two segments and some alignment")
 
     def profile(self, r):
-        return self.base_profile(r, p_single=0.0, p_align=0.8, p_classes=0.5, p_addr=0.6, p_segment_override=0.4, p_settings_field=0.3)
+        return self.base_profile(r, p_single=0.0, p_align=0.8, p_classes=0.5, p_addr=0.6, p_segment_override=0.4, p_settings_field=0.3, p_nonpow2=0.2)
 
     def nontrivial(self, c):
         ks = ("segment_start_align", "segment_end_align")
